@@ -912,7 +912,15 @@ func TestVerifC13Validating(t *testing.T) {
 				if !admittedDirect {
 					via = "PodValidatingHandler.Handle (although clusterColocationProfileValidatingPod denied)"
 				}
-				c.Fail("C13/protocol/"+brokenA[0], "%s admitted a %s that breaks the protocol: %v (gates: ColocationProfileSkipValidatingPriority=%t ValidatePodDeviceResource=%t)\nQoS=%s priority class=%s (spec.priority=%s, label=%q) pod CPU request=%s batch requested=%v\nnew=%s\nold=%s",
+				sig := "C13/protocol/" + brokenA[0]
+				if brokenA[0] == "lsx-cpu-not-whole" && c13PodLevelCPUDecFormWithOverhead(newPod) {
+					// narrow attribution, from the input alone: a pod-level cpu request written with more than
+					// 18 digits (Quantity keeps it as a shared *inf.Dec) plus a cpu overhead. The Kubernetes
+					// helper behind util.GetPodRequest aliases that Dec and adds the overhead INTO THE POD
+					// OBJECT, so the validator's second GetPodRequest call sees the overhead twice.
+					sig += "/pod-level-cpu-over-18-digits-with-overhead"
+				}
+				c.Fail(sig, "%s admitted a %s that breaks the protocol: %v (gates: ColocationProfileSkipValidatingPriority=%t ValidatePodDeviceResource=%t)\nQoS=%s priority class=%s (spec.priority=%s, label=%q) pod CPU request=%s batch requested=%v\nnew=%s\nold=%s",
 					via, strings.ToLower(string(op)), brokenA, skipPrioGate, deviceGate, qos, pcA, c13PrioStr(newPod.Spec.Priority), newPod.Labels[c13PCKey],
 					c13PodRequest(newPod, corev1.ResourceCPU).FloatString(6), batch, newRaw, oldRaw)
 			}
@@ -942,6 +950,30 @@ func TestVerifC13Validating(t *testing.T) {
 			}
 		}
 	})
+}
+
+// c13PodLevelCPUDecFormWithOverhead: the pod states a pod-level cpu request whose canonical string
+// has more than 18 digits (beyond the int64 fast path of resource.ParseQuantity) and has a cpu overhead.
+func c13PodLevelCPUDecFormWithOverhead(pod *corev1.Pod) bool {
+	if pod.Spec.Resources == nil {
+		return false
+	}
+	q, ok := pod.Spec.Resources.Requests[corev1.ResourceCPU]
+	if !ok {
+		return false
+	}
+	if o, ok := pod.Spec.Overhead[corev1.ResourceCPU]; !ok || c13Rat(o).Sign() == 0 {
+		return false
+	}
+	digits := 0
+	for _, ch := range q.String() {
+		if ch >= '0' && ch <= '9' {
+			digits++
+		} else if ch != '.' && ch != '-' && ch != '+' {
+			break
+		}
+	}
+	return digits > 18
 }
 
 func c13PrioStr(p *int32) string {
